@@ -19,7 +19,7 @@ RULE = ('files of the shape  ok(1). ok(2). <damaged clause> ok(3). ok(4).  where
         'for a sample). distinct = distinct file texts; non-trivial = all')
 PARAMS = {'quick': {'n': 4000}, 'thorough': {'n': 150000}}
 MIN_EVAL = {'quick': 20000, 'thorough': 1000000}
-STRATA = ['delete', 'insert', 'replace', 'truncate', 'unterminated', 'bad-escape', 'token-soup', 'long-token', 'deep-brackets']
+STRATA = ['layout-after-end', 'delete', 'insert', 'replace', 'truncate', 'unterminated', 'bad-escape', 'token-soup', 'long-token', 'deep-brackets']
 ASSUMPTIONS = ['after a syntax error the reader is expected to have consumed input up to an end token; clauses that start after '
                'the damaged clause\'s own end token must be readable again',
                'mutations that introduce a quote, back-quote, 0\', % or /* may legitimately swallow following text: for those only '
@@ -93,13 +93,32 @@ def shard(ctx):
     seen = set()
     fpath = ctx.scratch_dir() + '/c17.pl'
     ok = lambda k: ('c', 't', (mkc('ok', mkint(k)),))
+    # self-consistency: a character the reader accepts as layout between tokens must also end a clause after the end dot
+    layouts = ['\n', ' ', '\t', '\r\n', ' % comment\n', '%c\n', '\n\n']
+    for name, ch in (('vertical-tab', '\x0b'), ('form-feed', '\x0c'), ('carriage-return', '\r'), ('no-break-space', '\xa0'), ('ideographic-space', '\u3000')):
+        with open(fpath, 'w', encoding='utf-8') as f:
+            f.write('ok(%s1%s).\n' % (ch, ch))
+        o = arith.run_goal(w, "open('%s', read, S), c17_loop(S, 0, R), close(S)" % fpath, var='R', timeout=40)
+        is_layout = o == ('val', mklist([ok(1)]))
+        rec.info['layout_between_tokens:' + name] = int(is_layout)
+        if is_layout:
+            layouts.append(ch)
+            with open(fpath, 'w', encoding='utf-8') as f:
+                f.write('ok(1).%sok(2).%sok(3).' % (ch, ch))
+            o = arith.run_goal(w, "open('%s', read, S), c17_loop(S, 0, R), close(S)" % fpath, var='R', timeout=40)
+            rec.case('layout-after-end', (name,))
+            if o != ('val', mklist([ok(1), ok(2), ok(3)])):
+                rec.violation({'kind': 'layout_character_does_not_end_clause', 'char': name},
+                              {'file': 'ok(1).%sok(2).%sok(3).' % (ch, ch), 'observed': arith.show_obs(o)[:300], 'jobs': [{'op': 'load', 'module': 'user', 'text': SETUP}]})
     for i in range(n):
         t = valid_clause(rng)
         # the clause text as the engine itself prints it (valid, with operators)
         from ..terms import to_text
         base = to_text(t)
         st, damaged, what = mutate(rng, base, i + ctx.shard)
-        filetext = 'ok(1).\nok(2).\n%s .\nok(3).\nok(4).\n' % damaged
+        # the character(s) after each end dot vary over everything the machine itself treats as layout (probed below)
+        seps = [rng.choice(layouts) if rng.random() < 0.5 else '\n' for _ in range(5)]
+        filetext = 'ok(1).%sok(2).%s%s .%sok(3).%sok(4).%s' % (seps[0], seps[1], damaged, seps[2], seps[3], seps[4])
         if filetext in seen:
             continue
         seen.add(filetext)
